@@ -189,6 +189,34 @@ fn marker_length_matrix() -> Vec<(String, Vec<u8>)> {
 /// inputs whose declared counts / lengths promise far more than is there
 fn build_count_input(i: usize, rng: &mut Rng) -> (String, Vec<u8>) {
     let filler = |n: usize, b: u8| vec![b; n];
+    if i >= 14 {
+        // very many tiny containers in one message (a constant cost per container multiplies),
+        // and a chain of back-references (marker 07: each value names its predecessor twice)
+        let rep = |unit: &[u8], total: usize| -> Vec<u8> {
+            let mut v = Vec::with_capacity(total);
+            while v.len() + unit.len() <= total {
+                v.extend_from_slice(unit);
+            }
+            v
+        };
+        return match i - 14 {
+            0 => ("131,072 empty ECMA arrays (1 MiB)".into(), rep(&[0x08, 0, 0, 0, 0, 0, 0, 9], 1 << 20)),
+            1 => ("262,144 empty objects (1 MiB)".into(), rep(&[0x03, 0, 0, 9], 1 << 20)),
+            2 => ("empty ECMA arrays, 16 MiB".into(), rep(&[0x08, 0, 0, 0, 0, 0, 0, 9], MAX_LEN)),
+            3 => ("ECMA arrays with one property each, 4 MiB".into(), rep(&[0x08, 0, 0, 0, 1, 0, 1, b'a', 0x05, 0, 0, 9], 4 << 20)),
+            4 => ("objects with one property each, 4 MiB".into(), rep(&[0x03, 0, 1, b'a', 0x05, 0, 0, 9], 4 << 20)),
+            _ => {
+                let mut v = vec![0x0A, 0, 0, 0, 1, 0x05];
+                for k in 1..40u16 {
+                    v.extend_from_slice(&[0x0A, 0, 0, 0, 2, 0x07]);
+                    v.extend_from_slice(&(k - 1).to_be_bytes());
+                    v.push(0x07);
+                    v.extend_from_slice(&(k - 1).to_be_bytes());
+                }
+                ("chain of 40 arrays each holding two references (marker 07) to its predecessor".into(), v)
+            }
+        };
+    }
     match i % 14 {
         0 => ("strict array count 2^32-1, nothing behind".into(), vec![0x0A, 0xFF, 0xFF, 0xFF, 0xFF]),
         1 => {
@@ -377,7 +405,7 @@ impl Check for C14 {
     }
     fn plan(&self, tier: Tier) -> Plan {
         let ladder = Self::ladder_cases(tier);
-        let counts = 14 * 3;
+        let counts = 20 * 3;
         let mut p = Plan::new(ladder + counts + Self::run_cases() + 3 + tier.pick(12_000, 300_000), tier.pick(35.0, 420.0));
         p.mandatory = ladder + counts + Self::run_cases() + 3;
         p.cpu_budget_s = 120.0;
@@ -407,9 +435,9 @@ impl Check for C14 {
         }
         let k2 = k - ladder;
         let runs = Self::run_cases();
-        if k2 >= 14 * 3 && k2 < 14 * 3 + runs {
+        if k2 >= 20 * 3 && k2 < 20 * 3 + runs {
             // long runs of one byte value: every marker (and object-end 09, and FF) repeated
-            let i = (k2 - 14 * 3) as usize;
+            let i = (k2 - 20 * 3) as usize;
             let b = RUN_BYTES[i / (RUN_LENS.len() * 3) % RUN_BYTES.len()];
             let n = RUN_LENS[(i / 3) % RUN_LENS.len()];
             let mut input = vec![b; n];
@@ -423,7 +451,7 @@ impl Check for C14 {
             decode_on_small_stack(input, routes(k2), &what, out);
             return;
         }
-        if k2 >= 14 * 3 + runs && k2 < 14 * 3 + runs + 3 {
+        if k2 >= 20 * 3 + runs && k2 < 20 * 3 + runs + 3 {
             for (what, input) in marker_length_matrix() {
                 out.count("marker_x_declared_length_inputs", 1);
                 decode_on_small_stack(input, routes(k2), &what, out);
@@ -431,8 +459,8 @@ impl Check for C14 {
             out.shape(mix(0xD0, k2));
             return;
         }
-        let k2 = if k2 >= 14 * 3 + runs + 3 { k2 - runs - 3 } else { k2 };
-        if k2 < 14 * 3 {
+        let k2 = if k2 >= 20 * 3 + runs + 3 { k2 - runs - 3 } else { k2 };
+        if k2 < 20 * 3 {
             let (what, input) = build_count_input((k2 / 3) as usize, rng);
             out.count("count_field_inputs", 1);
             out.shape(mix(0xC0, k2));
@@ -526,7 +554,7 @@ impl Check for C14 {
         decode_on_small_stack(input, routes(rng.below(3)), &what, out);
     }
     fn rule(&self) -> String {
-        "each input is decoded on a spawned thread with a 2 MiB stack inside a supervised worker, by one of three routes (rml_amf0::deserialize; MessagePayload{type 20/18/17/15}::to_rtmp_message; a ServerSession receiving it as one type-20 message). Mandatory ladder: 12 nesting kinds (strict arrays, closed and unclosed objects, ECMA arrays, mixed, after a valid command prefix, wide-and-deep, long names, arrays with count 2^32-1, objects / ECMA arrays / a mix nested through properties with an empty name) x depths {1,10,100,10^3,10^4,10^5,10^6; thorough adds 2*10^6 and 3,355,443 = 16,777,215/5} x 3 routes; every marker byte 0x00-0x13, 0x20, 0x7F, 0x80, 0xFF followed by a declared length or count (u16 {0xFFFF, 0x8000, 0x0100}, u32 {2^32-1, 2^31-1, 2^24, 2^24-1, 2^24-2, 2^23, 2^20, 2^16}) with 0 or 16 bytes behind it, at top level, as a property value and as an array element, plus property names and strings of 2-164 bytes built from 2-, 3- and 4-byte characters at every alignment with the value missing, cut short or replaced by an object end (2,592 inputs x 3 routes); 14 count/length inputs (counts 2^31-1 and 2^32-1 with little or no data, declared 65535-byte strings and names with nothing behind, 16,777,215 one-byte values) x 3 routes; runs of 20,000 / 10^6 / 16,777,215 copies of one byte for each marker value, object-end 09, 0B, 0C and FF, x 3 routes; then random, mutated and marker-biased inputs. distinct = (kind, depth, route).".to_string()
+        "each input is decoded on a spawned thread with a 2 MiB stack inside a supervised worker, by one of three routes (rml_amf0::deserialize; MessagePayload{type 20/18/17/15}::to_rtmp_message; a ServerSession receiving it as one type-20 message). Mandatory ladder: 12 nesting kinds (strict arrays, closed and unclosed objects, ECMA arrays, mixed, after a valid command prefix, wide-and-deep, long names, arrays with count 2^32-1, objects / ECMA arrays / a mix nested through properties with an empty name) x depths {1,10,100,10^3,10^4,10^5,10^6; thorough adds 2*10^6 and 3,355,443 = 16,777,215/5} x 3 routes; every marker byte 0x00-0x13, 0x20, 0x7F, 0x80, 0xFF followed by a declared length or count (u16 {0xFFFF, 0x8000, 0x0100}, u32 {2^32-1, 2^31-1, 2^24, 2^24-1, 2^24-2, 2^23, 2^20, 2^16}) with 0 or 16 bytes behind it, at top level, as a property value and as an array element, plus property names and strings of 2-164 bytes built from 2-, 3- and 4-byte characters at every alignment with the value missing, cut short or replaced by an object end (2,592 inputs x 3 routes); 20 count/length inputs (among them 131,072 / 2 M empty ECMA arrays, 262,144 empty objects, one-property containers by the megabyte, a chain of 40 arrays each holding two back-references to its predecessor) (counts 2^31-1 and 2^32-1 with little or no data, declared 65535-byte strings and names with nothing behind, 16,777,215 one-byte values) x 3 routes; runs of 20,000 / 10^6 / 16,777,215 copies of one byte for each marker value, object-end 09, 0B, 0C and FF, x 3 routes; then random, mutated and marker-biased inputs. distinct = (kind, depth, route).".to_string()
     }
     fn assumptions(&self) -> Vec<String> {
         vec![
